@@ -157,7 +157,10 @@ def gen_case(chk, i):
         ths = list(range(50 + nth * l // nloom, 50 + nth * (l + 1) // nloom))
         if not ths:
             ths = [90 + l]
-        looms.append({"name": "bd%d" % l if nloom > 1 else "bd", "cpus": [(i, p) for i, (k, p) in enumerate(cpus)],
+        phys = [p for (k, p) in cpus]
+        if i % 2:
+            phys.reverse()      # logical indexes need not follow the order of the physical ids
+        looms.append({"name": "bd%d" % l if nloom > 1 else "bd", "cpus": [(j, p) for j, p in enumerate(phys)],
                       "procs": [{"pid": 5 + l, "appid": 1 + l, "threads": ths}]})
     desc = {"looms": looms}
     # a third of the histories pause and resume tasks bare (no API / blocking
